@@ -32,6 +32,31 @@ def run(ctx):
     T = spec_tables()
     tags = tag_variants(idx)
 
+    # ------------------------------------------------------------------ R03.1
+    from ..product import Explorer
+    r = ctx.rule("R03.1", "the tokenizer automaton extracted from the expanded source agrees with the WHATWG reference model on every input: same token emissions in the same step with the same raw extent and equal tag-name / attribute / comment / doctype ranges and flags, same attribute starts, same end-of-input events (product exploration over all reachable configurations, all 256 bytes + EOF, all oracle answers, every tree-builder choice of text state)", "E-SM product exploration vs spec/whatwg_tokenizer.py", floor=2000, exhaustive=True)
+    from ..product import spec_selfcheck
+    nchk, bad = spec_selfcheck()
+    if bad:
+        raise EngineError("R03.1: the WHATWG reference model fails its own sanity facts: %s" % bad)
+    r.analysed["reference_model_selfchecks"] = nchk
+    ex = Explorer(g, aut)
+    ex.explore()
+    r.instances = ex.configs
+    r.nontrivial = set(ex.pairs)
+    r.analysed.update({"configurations": ex.configs, "state_pairs": len(ex.pairs), "emissions_compared": ex.emissions, "attributes_compared": ex.attr_compared, "ranges_compared": ex.ranges_compared})
+    r.samples = ex.samples[:4]
+    seen_m = set()
+    for m_ in ex.mismatches:
+        mm = re.search(r"on (\w+_state) \[([^\]]*)\]", m_)
+        key = (mm.group(1) + "|" + mm.group(2)) if mm else m_[:80]
+        if key in seen_m:
+            continue
+        seen_m.add(key)
+        r.violate(key, m_[:900], shared.state_loc(mm.group(1)) if mm else None)
+    if not ex.mismatches and (ex.emissions < 1000 or len(ex.pairs) < 90):
+        raise EngineError("R03.1: the product exploration covered only %d emissions / %d state pairs" % (ex.emissions, len(ex.pairs)))
+
     # ------------------------------------------------------------------ R03.5
     r = ctx.rule("R03.5", "a tag emission is always followed by the dynamic text state (emit_tag may have changed the text type through tree-builder feedback); a literal transition into a text state happens only where the text type provably equals that state's type", "E-SM dataflow", floor=12)
     type_of_state = {v: k for k, v in aut.text_state_map.items()}
